@@ -600,10 +600,14 @@ class Tr:
         s, rest = stmts[0], stmts[1:]
         if isinstance(s, ast.Continue):
             return ind + acc
-        if isinstance(s, ast.If) and not s.orelse:
+        if isinstance(s, ast.Pass) or (isinstance(s, ast.Expr) and isinstance(s.value, ast.Constant)):
+            return self.accbody(rest, acc, ind)
+        if isinstance(s, ast.If):
             ends = bool(s.body) and isinstance(s.body[-1], ast.Continue)
+            ends_else = bool(s.orelse) and isinstance(s.orelse[-1], ast.Continue)
             then = list(s.body) + ([] if ends else rest)
-            return f"{ind}if {self.cond(s.test)} then\n{self.accbody(then, acc, ind + '  ')}\n{ind}else\n{self.accbody(rest, acc, ind + '  ')}"
+            orelse = list(s.orelse) + ([] if ends_else else rest)       # if / elif / else chains as well as `if …: continue`
+            return f"{ind}if {self.cond(s.test)} then\n{self.accbody(then, acc, ind + '  ')}\n{ind}else\n{self.accbody(orelse, acc, ind + '  ')}"
         if isinstance(s, ast.Expr) and isinstance(s.value, ast.Call) and isinstance(s.value.func, ast.Attribute) and ast.unparse(s.value.func.value) == acc:
             if s.value.func.attr == "append" and len(s.value.args) == 1:
                 return f"{ind}let {acc} := {acc} ++ [{self.e(s.value.args[0])}]\n" + self.accbody(rest, acc, ind)
